@@ -2005,8 +2005,11 @@ fn plan_fee_auth(w: &World, actor: &mut Actor, _l: &Ledger) -> Vec<(Tx, String)>
         let style = rng.below(4);
         let o16 = |rng: &mut Rng, v: u16, on: bool| if on && rng.chance(2, 3) { Some(v) } else { None };
         let small_max = *rng.pick(&[0u32, 1, 10_000, 50_000]);
+        let others: Vec<Pubkey> = w.pools.iter().filter(|q| q.adaptive && q.keys.whirlpool != pi.keys.whirlpool).map(|q| q.keys.oracle).collect();
+        let other_oracle = if !others.is_empty() && rng.chance(1, 8) { Some(others[rng.idx(others.len())]) } else { None };
         let i = ix::mk(
-            whirlpool::accounts::SetAdaptiveFeeConstants { whirlpool: pi.keys.whirlpool, whirlpools_config: w.config, oracle: pi.keys.oracle, fee_authority: actor.wallet },
+            // (one call in eight names this pool but carries the oracle of another adaptive-fee pool of the world)
+            whirlpool::accounts::SetAdaptiveFeeConstants { whirlpool: pi.keys.whirlpool, whirlpools_config: w.config, oracle: other_oracle.unwrap_or(pi.keys.oracle), fee_authority: actor.wallet },
             whirlpool::instruction::SetAdaptiveFeeConstants {
                 filter_period: o16(rng, c.filter_period, style == 0),
                 decay_period: o16(rng, c.decay_period, style == 0),
